@@ -516,7 +516,19 @@ func seamEdits(fset *token.FileSet, j *fileJob, ti *types.Info, info *Info) erro
 	ast.Inspect(j.file, func(n ast.Node) bool {
 		switch x := n.(type) {
 		case *ast.GoStmt:
-			info.Notes = append(info.Notes, fmt.Sprintf("%s: go statement at line %d is not simulated (runs as a real goroutine)", j.rel, fset.Position(x.Pos()).Line))
+			// Goroutines started by the library itself are not scheduled by the
+			// simulator. For the fork-join form `go func(...) {...}(...)` the stretch
+			// during which such helpers exist is executed as one atomic step: while any
+			// helper is alive every yield (of the helpers and of whoever waits for them)
+			// is a no-op, so the scheduler's state is never touched by two threads.
+			if fl, ok := x.Call.Fun.(*ast.FuncLit); ok && fl.Body != nil {
+				p := fset.Position(x.Pos()).Offset
+				b := fset.Position(fl.Body.Lbrace).Offset + 1
+				j.edits = append(j.edits, edit{p, p, "verifrt.GoStart(); "}, edit{b, b, " defer verifrt.GoEnd(); "})
+				info.Notes = append(info.Notes, fmt.Sprintf("%s: go statement at line %d: the helper goroutine and its parent run unsimulated (atomically) until it ends", j.rel, fset.Position(x.Pos()).Line))
+			} else {
+				info.Notes = append(info.Notes, fmt.Sprintf("%s: go statement at line %d is not simulated (runs as a real goroutine)", j.rel, fset.Position(x.Pos()).Line))
+			}
 		case *ast.FuncDecl:
 			if j.pkg == "" && x.Recv == nil && x.Body != nil && (x.Name.Name == "getDec" || x.Name.Name == "putDec") {
 				if obj, ok := ti.Defs[x.Name].(*types.Func); ok {
